@@ -242,6 +242,9 @@ def units(tier):
     wrap("C02.xpp_assemblage_save.every_phase_gets_its_solved_amount", SV.unit_xpp_save)
     wrap("C02.xgas_save.components_get_solved_moles_pressure_fugacity", SV.unit_xgas_save)
     wrap("C02.xexchange_save.sites_get_sorbed_amounts_and_charge", SV.unit_xexchange_save)
+    wrap("C02.add_surface.saved_diffuse_layer_totals_are_added_back", SV.unit_add_surface_dl)
+    from props import c02_mbspecies as MBS
+    wrap("C02.mb_for_species.same_H_O_charge_coefficients_for_aq_ex_surf", MBS.unit_mb_for_species)
     from props import c02_dispatch as DP
     wrap("C02.step.element_dispatch_adds_the_same_amount_to_exactly_one_accumulator", DP.unit_dispatch)
     from props import c02_reset as RS
